@@ -1199,6 +1199,11 @@ func (c *Context) quantize(d, v *Decimal, exp int32) Condition {
 			if !d.IsZero() {
 				d.Coeff.SetInt64(0)
 				res = Inexact | Rounded
+				// Every digit is discarded and the discarded part is less than
+				// half a unit; the rounding mode may still round away from zero.
+				if c.Rounding.ShouldAddOne(&d.Coeff, d.Negative, -1) {
+					d.Coeff.SetInt64(1)
+				}
 			}
 		} else {
 			nc := c.WithPrecision(uint32(p))
